@@ -71,7 +71,7 @@ def from_ww3(dset):
     # Only selected variables to be returned
     to_drop = list(set(dset.data_vars.keys()) - to_keep)
     # Converting from radians
-    dset[attrs.SPECNAME] *= D2R
+    dset[attrs.SPECNAME] = dset[attrs.SPECNAME] * D2R
     # Convert to coming-from
     dset = dset.assign_coords({attrs.DIRNAME: (dset[attrs.DIRNAME] + 180) % 360})
     # Setting standard attributes
